@@ -209,11 +209,16 @@ STATES = {
         "settle": True}, ["1rtt"]),
     "server_v2_cubic": ("server", {"cut": "connected", "cfg": {"version": V2, "cc": "cubic"}}, ["1rtt"]),
     "client_closing": ("client", {"cut": "connected", "close": True}, ["1rtt"]),
+    # a resuming client with accepted early data: the one state in which the peer holds 0-RTT keys
+    "server_early_data": ("server", {"cut": ("steps", 2), "cfg": {"tickets": "obtain"},
+                                     "script": {"c": [{"op": "w", "sid": 0, "n": 300, "fin": False, "g": "pre"}]}}, ["0rtt"]),
+    "server_early_data_v2": ("server", {"cut": ("steps", 2), "cfg": {"tickets": "obtain", "version": V2},
+                                        "script": {"c": [{"op": "w", "sid": 0, "n": 300, "fin": False, "g": "pre"}]}}, ["0rtt"]),
     "server_mid_handshake_v2": ("server", {"cut": ("steps", 1), "cfg": {"version": V2, "chain": "bigchain"}},
                                 ["initial", "handshake"]),
 }
 QUICK_STATES = ["server_fresh", "client_first_flight", "server_after_initial", "client_after_server_flight",
-                "server_connected", "client_connected", "client_after_retry", "server_streams"]
+                "server_connected", "client_connected", "client_after_retry", "server_streams", "server_early_data"]
 
 
 def make_bot(state):
@@ -226,7 +231,11 @@ def make_bot(state):
             return (w.ep["c"].hs_done and w.ep["s"].hs_done and w.ep["c"].op_i == len(w.ep["c"].ops)
                     and w.ep["s"].op_i == len(w.ep["s"].ops) and w.nsteps > 12)
         kw["cut"] = pred
+    if kw.get("cfg", {}).get("tickets") == "obtain":
+        kw["cfg"] = netsim.resolve_tickets(kw["cfg"])
     bot = peerbot.PeerBot(role, **kw)
+    if epochs == ["0rtt"] and bot.keys("0rtt") is None:
+        raise core.HarnessError("state %s: the peer has no 0-RTT keys" % state)
     if close:
         bot.app("close", lambda c: c.close(error_code=0, reason_phrase="x"))
     return bot
